@@ -111,6 +111,15 @@ CLAIMED["C16"] = (
     "the floating-point rounding bound of the one-pass formula, NumPy's median/quantile kernels, agg/ratio/density (pandas arithmetic) are NOT decided; "
     "_apply_gb_reduction is cut to the kernel path for var/std", "DESIGN.md 4 C16")
 
+CLAIMED["C12"] = (
+    "in part (dtype / exactness / layout): for every integer width, bool, float32/64 and datetime64/timedelta64 in s/ms/us/ns, "
+    "group_min/max/first/last (1-3 blocks, masks), cummin/cummax and temporal rolling min/max/shift/diff return values satisfying the "
+    "per-group/prefix/window definition, keep the input dtype and time unit, and never route a 64-bit integer through a float array "
+    "(side obligation |v|<=2^53 at every int->float store); counts are integers; integer/bool sums accumulate in 64 bits and equal the "
+    "mathematical sum; any chunk layout of the values, misaligned with the key chunks, gives the contiguous answer; N<=3 (quick), N<=5 (thorough)",
+    "container normalisation (pandas/polars/pyarrow objects, time zones, Arrow null bitmaps) is C-extension behaviour and NOT decided: "
+    "changes confined to _val_to_numpy/to_arrow/_convert_timestamp_to_tz_unaware are not expected to be caught", "DESIGN.md 4 C12")
+
 NOT_APPLICABLE = {
     "C11": "labelling/order/shape are decided entirely by pandas Index/MultiIndex/DataFrame operations (C extension semantics); nothing symbolic to quantify over within reach of the encoder (DESIGN.md 5)",
     "C14": "margins and crosstab are reindex/groupby(level)/concat/unstack on pandas objects; not encodable (DESIGN.md 5)",
